@@ -47,7 +47,8 @@ MIN_EVALS = 3000
 REQUIRED_COUNTERS = ("requests_judged", "verdict:ok", "verdict:reject", "relpath_pairs", "relpath_physical",
                      "overwrites_symlink", "overwrites_symlink:file-over-dangling-relative-link",
                      "overwrites_symlink:file-over-dangling-absolute-link", "overwrites_symlink:link-over-dangling-relative-link",
-                     "overwrites_hardlinked_file", "overwrites_regular:link")
+                     "overwrites_hardlinked_file", "overwrites_regular:link", "setid_mode_with_owner_files",
+                     "directed:dirlink-trees")
 
 P = hx.PKG_ID
 QUIRKS = ("man-lang-regex", "html-no-filter-in-dirs", "default-insopts-lost")
@@ -106,10 +107,18 @@ def judge(ctx, sc, history, idx, rec):
             ctx.violation("forbidden-request-accepted",
                           witness(sc, history, idx, rec, exp, {"rule": exp["rule"], "impl": "success", "want": "failure"}))
         return
-    # valid request
+    if exp["verdict"] == "either" and outcome != "success":
+        ctx.skip_unspecified("symlink-to-directory source over an existing entry: refusing is tolerated")
+        return
+    # valid request (or one that may be refused but was answered with success)
     if exp["entries"]:
         ctx.nontrivial(key)
     ctx.count("rule:" + exp["rule"])
+    for fp, spec in exp["entries"].items():
+        if spec["type"] == "file" and spec.get("mode") is not None and spec["mode"] & 0o6000 and (
+                spec.get("uid") is not None or spec.get("gid") is not None):
+            ctx.count("setid_mode_with_owner_files")
+            ctx.nontrivial(("setid", h, fp, oct(spec["mode"]), spec.get("uid"), spec.get("gid"), sc.eapi))
     for fp in exp.get("replaces_files", ()):
         old = rec.pre[fp]
         ctx.count("overwrites_regular:" + exp["entries"][fp]["type"])
@@ -332,9 +341,9 @@ def run(ctx):
         ctx.note("chown not permitted here: -o/-g install options are not generated")
     run_relpath(ctx, ctx.budget(6000, 30000), ctx.budget(300, 1500))
     # directed: a later install helper hits an image path that holds a symlink (dangling/live, relative/absolute)
-    for i in range(ctx.budget(22, 220)):
+    for i in range(ctx.budget(26, 260)):
         want = gen.OVER_VARIANTS[(i + ctx.shard) % len(gen.OVER_VARIANTS)]
-        eapi = rng.choice(gen.EAPIS if want == "dosym-then-file" else
+        eapi = rng.choice(gen.EAPIS if want in ("dosym-then-file", "setid-owner") else
                           gen.EAPIS[:4] if want == "hardlink-then-file" else gen.EAPIS[4:])
         tree = gen.gen_tree(rng)
         variant, script = gen.overwrite_script(rng, eapi, want)
